@@ -186,9 +186,13 @@ class Importance(CellModifierInput):
             for other, other_tree in self._particle_importances.items()
             if other != particle
         ):
-            tree = copy.deepcopy(tree)
-            # the comments stay with the entry this one was copied from: they are written once
-            _drop_comments(tree)
+            original = tree
+            tree = copy.deepcopy(original)
+            # both entries hold the comments of the entry that was read: whichever is printed first
+            # prints them, the other one is printed without (see _format_tree)
+            group = getattr(original, "_comment_group", None) or object()
+            original._comment_group = group
+            tree._comment_group = group
             self._particle_importances[particle] = tree
         tree["data"][0].value = value
 
@@ -244,6 +248,7 @@ class Importance(CellModifierInput):
     def _format_tree(self):
         if self.in_cell_block:
             particles_printed = set()
+            groups_printed = set()
             ret = ""
             for particle in self:
                 if particle in particles_printed:
@@ -276,7 +281,14 @@ class Importance(CellModifierInput):
                     self._is_comment_line(lines[-1]) or "$" in lines[-1]
                 ):
                     ret += "\n" + " " * BLANK_SPACE_CONTINUE
-                ret += self._particle_importances[particle].format()
+                tree = self._particle_importances[particle]
+                group = getattr(tree, "_comment_group", None)
+                if group is not None and group in groups_printed:
+                    # a copy of an entry printed above: its comments have been written already
+                    tree = copy.deepcopy(tree)
+                    _drop_comments(tree)
+                groups_printed.add(group)
+                ret += tree.format()
                 # formatting is an observation: the entry keeps the particles it was given with, so that
                 # particles whose values are equal again later are printed together again
                 for removee in to_remove:
